@@ -11,6 +11,7 @@ demo=$(ls $O/mut$N.demo/*.rs | head -1)
 cp $demo $W/$dest
 tname=$(basename $dest .rs)
 pkg=""; case "$dest" in parser/*) pkg="-p async-graphql-parser";; value/*) pkg="-p async-graphql-value";; esac
+feat=$(grep -o -- '--features[ =][A-Za-z0-9_,-]*' $O/mut$N.demo/where.txt | head -1); pkg="$pkg $feat"
 echo "== demo without mutation" >> $L
 cargo test --offline $pkg --test $tname >> $L 2>&1; d0=$?
 git apply $O/mut$N.patch.diff >> $L 2>&1 || { echo "$P mut$N: PATCH DOES NOT APPLY"; exit 1; }
